@@ -89,7 +89,19 @@ func ParseDec(s string) (Dec, bool) {
 			eneg = es[0] == '-'
 			es = es[1:]
 		}
-		if es == "" || len(es) > 9 {
+		if es == "" {
+			return Dec{}, false
+		}
+		for _, c := range es {
+			if c < '0' || c > '9' {
+				return Dec{}, false
+			}
+		}
+		// leading zeros of the exponent are insignificant
+		if es = strings.TrimLeft(es, "0"); es == "" {
+			es = "0"
+		}
+		if len(es) > 9 {
 			return Dec{}, false
 		}
 		for _, c := range es {
